@@ -1,7 +1,7 @@
 (* C06, code half - snippet for Properties_C06.v (contributed by the `syntax` area; proofs in Syntax/CodeRoundtrip.v) *)
 From Coq Require Import ZArith List Bool Arith.
 Import ListNotations.
-From SqfVerif Require Import Syntax.SyntaxDefs Syntax.LexProofs Syntax.CodeRoundtrip Syntax.ParsePrintGen Syntax.PrettyRoundtrip Syntax.PrettySpelling Syntax.ParseSound.
+From SqfVerif Require Import Syntax.SyntaxDefs Syntax.LexProofs Syntax.CodeRoundtrip Syntax.ParsePrintGen Syntax.PrettyRoundtrip Syntax.PrettySpelling Syntax.ParseSound Syntax.LexIdem.
 From SqfVerif Require Num.NumDefs.
 
 (* str of code: for every registry and every well-formed block ss with compiled code c = postorder_block ss,
@@ -177,3 +177,48 @@ Example C06_text_roundtrip_computed :
   | _ => False
   end.
 Proof. vm_compute. repeat split; discriminate. Qed.
+
+(* ---------------------------------------------------------------- the lexer is idempotent on its tokens (Syntax/LexIdem.v) *)
+(* Every token the lexer model produces from ANY text reads back as itself, under a decidable condition on the token
+   that only bites for strings (terminated: str_closed) and numbers (num_relex: the computed re-lex of the token
+   text - the dangling-`e` shape `1e` of `1e+ 2` fails it; not characterised by shape).  Names, keywords, operators,
+   brackets, separators, `=` and hexadecimal numbers need no condition. *)
+Theorem C06_lex_token_idempotent : forall (s:text) (t:rtok) (rest:text),
+  lex1 s = L1Tok t rest -> well_term t = true -> tok_ok t.
+Proof. exact lex1_idem. Qed.
+Print Assumptions C06_lex_token_idempotent.
+
+(* so "every token of the text reads as itself" is the decidable text_well_terminated (both directions) *)
+Theorem C06_well_terminated_spelled : forall s, text_well_terminated s = true -> src_spelled s.
+Proof. exact well_terminated_spelled. Qed.
+Print Assumptions C06_well_terminated_spelled.
+Theorem C06_spelled_well_terminated : forall s, src_spelled s -> text_well_terminated s = true.
+Proof. exact spelled_well_terminated. Qed.
+Print Assumptions C06_spelled_well_terminated.
+
+(* the end-to-end theorems with decidable conditions on the text and the parsed tree only *)
+Theorem C06_pretty_roundtrip_text_dec : forall (d:defects) (R:registry) (f1:nat) (s:text) (ss:list stmt),
+  parse_text d R f1 s = FOk ss -> text_well_terminated s = true -> forallb tv_stmt ss = true -> reg_ok d R ->
+  exists f0, forall f, (f0 <= f)%nat ->
+    parse_text d R f (pieces_text (pretty_program ss)) = FOk (map pnorm_stmt ss) /\
+    exists c, compile_block ss = Some c /\ compile_block (map pnorm_stmt ss) = Some (map (mapl_i hexnorm) c).
+Proof. exact pretty_roundtrip_text_dec. Qed.
+Print Assumptions C06_pretty_roundtrip_text_dec.
+
+Theorem C06_code_roundtrip_text_dec : forall (d:defects) (R:registry) (show_lit:lit -> lit) (f1:nat) (s:text) (ss:list stmt),
+  parse_text d R f1 s = FOk ss -> text_well_terminated s = true -> forallb tv_stmt ss = true -> reg_ok d R -> show_kind_ok show_lit ->
+  exists c, compile_block ss = Some c /\
+  exists ps, reconstruct show_lit c = Some ps /\
+    (toks_ok ps ->
+     exists f0, forall f, (f0 <= f)%nat ->
+       exists ss', parse_text d R f (pieces_text ps) = FOk [SExpr (Code ss')] /\
+                   compile_block ss' = Some (map (mapl_i show_lit) c)).
+Proof. exact code_roundtrip_text_dec. Qed.
+Print Assumptions C06_code_roundtrip_text_dec.
+
+(* the worked text passes the decidable condition; the two lexical witnesses of the refutation fail it, the
+   assignment witness passes it (it is excluded by tv_stmt) *)
+Example C06_text_well_terminated_computed :
+  text_well_terminated ex_src = true /\ text_well_terminated w_string = false /\ text_well_terminated w_number = false /\
+  text_well_terminated w_target = true.
+Proof. vm_compute. repeat split. Qed.
